@@ -983,6 +983,10 @@ func (g *generatorObject) delegate(v Value) Value {
 }
 
 func (g *generatorObject) tryCallDelegated(fn func() (Value, bool)) (ret Value, done bool) {
+	// yield* is evaluated inside the generator: while the delegated iterator's method runs the
+	// generator is running, and a re-entrant call from inside that method is rejected
+	state := g.state
+	g.state = genStateExecuting
 	ex := g.val.runtime.try(func() {
 		ret, done = fn()
 	})
@@ -991,7 +995,22 @@ func (g *generatorObject) tryCallDelegated(fn func() (Value, bool)) (ret Value, 
 		g.state = genStateExecuting
 		return g.step(g.gen.nextThrow(ex)), false
 	}
+	g.state = state
 	return
+}
+
+// completeOnPanic is deferred by next/throw/return once the call has been accepted. A panic that
+// passes through (an exception thrown while return() unwinds the generator's frames, an interrupt,
+// a stack overflow) ends the generator: it must not stay in the executing state, where every later
+// call would be rejected as re-entrant.
+func (g *generatorObject) completeOnPanic() {
+	if x := recover(); x != nil {
+		if g.state == genStateExecuting {
+			g.delegated = nil
+			g.state = genStateCompleted
+		}
+		panic(x)
+	}
 }
 
 func (g *generatorObject) callDelegated(method func(FunctionCall) Value, v Value) (Value, bool) {
@@ -1005,6 +1024,7 @@ func (g *generatorObject) callDelegated(method func(FunctionCall) Value, v Value
 
 func (g *generatorObject) next(v Value) Value {
 	g.validate()
+	defer g.completeOnPanic()
 	if g.state == genStateCompleted {
 		return g.val.runtime.createIterResultObject(_undefined, true)
 	}
@@ -1027,6 +1047,7 @@ func (g *generatorObject) next(v Value) Value {
 
 func (g *generatorObject) throw(v Value) Value {
 	g.validate()
+	defer g.completeOnPanic()
 	if g.state == genStateSuspendedStart {
 		g.state = genStateCompleted
 	}
@@ -1058,6 +1079,7 @@ func (g *generatorObject) throw(v Value) Value {
 
 func (g *generatorObject) _return(v Value) Value {
 	g.validate()
+	defer g.completeOnPanic()
 	if g.state == genStateSuspendedStart {
 		g.state = genStateCompleted
 	}
